@@ -305,7 +305,8 @@ def ns_pair(r, max_nodes=12, second_alias=False):
 
 
 F_VALUES = [0.1, 0.3, 0.5, 0.5, 0.5, 0.7071067811865476, 0.72, 0.9, 1.0]
-UNIQUE_CHOICES = [None, None, [], ["id"], [("a", "id")], ["id", "k"], [("b", "k"), "id"], [XMLID, "n"]]
+UNIQUE_CHOICES = [None, None, [], ["id"], [("a", "id")], ["id", "k"], [("b", "k"), "id"], [XMLID, "n"],
+                  [("a", "id"), ("a", "k")], ["n", ("b", "id")], [("c", "id"), ("c", "n"), ("a", "k")], ["k", ("a", "id"), ("a", "n")]]
 
 
 def rand_opts(r, with_ignored=False):
